@@ -82,6 +82,7 @@ class ReferenceImpl(Derivable, Impl):
 
         self.model.clear_obj(self)
         self.model.clear_attr_referrers(self)
+        self.refmode = bases[0].refmode     # The base may have changed
         if bases[0].has_interface():
 
             if self.refmode == "absolute":
